@@ -235,12 +235,13 @@ def check_c15(run):
         if third:
             rs.append({"name": "r3", "sal": rng.choice([0, 1, -2]), "ops": rng.choice(rec["rules"])["ops"]})
         return rs
-    def with_cf(rules):
-        """a conc block with a slow local assignment and a failing branch inside one of the rules"""
+    def with_cf(rules, k="CF"):
+        """CF: a conc block with a slow local assignment and a failing branch inside one of the rules; CW: the same with a
+        succeeding sibling; T: the rule sets the call's stop tag at that point"""
         rules = json.loads(json.dumps(rules))
         r = rng.choice(rules)
         pos = rng.randint(0, len(r["ops"]))
-        r["ops"].insert(pos, {"k": "CF", "name": rng.choice(["x", "y"])})
+        r["ops"].insert(pos, {"k": k, "name": rng.choice(["x", "y"]) if k != "T" else ""})
         return rules
     # local-only programs: every model, one or two calls on one engine / pool
     for rec in recsL:
@@ -248,9 +249,10 @@ def check_c15(run):
         for _ in range(reps):
             m, extra = rng.choice(ANY)
             calls = [mkcall(m, extra, rng.random() < 0.7)]
-            if rng.random() < 0.4:
-                m2, e2 = rng.choice(ANY)
-                calls.append(mkcall(m2, e2, True))
+            while rng.random() < 0.45 and len(calls) < 3:
+                # a later call on the same engine / pool instance: half of the time through the same method again
+                m2, e2 = (m, extra) if rng.random() < 0.5 else rng.choice(ANY)
+                calls.append(mkcall(m2, e2, rng.random() < 0.7))
             sid += 1
             tgt = rng.choice(["engine", "engine", "pool"])
             s = {"id": sid, "kind": "locals", "target": tgt, "gated": True, "parallel": False,
@@ -260,8 +262,13 @@ def check_c15(run):
                 s["parallel"] = True
                 s["poolmin"], s["poolmax"] = rng.choice([(1, 2), (2, 3), (1, 3)])
                 s["calls"] = [mkcall(*rng.choice(ANY)) for _ in range(rng.randint(2, 3))]
-            if rng.random() < 0.25:
+            x = rng.random()
+            if x < 0.2:
                 s["rules"] = with_cf(s["rules"])
+            elif x < 0.4:
+                s["rules"] = with_cf(s["rules"], "CW")
+            elif x < 0.55:
+                s["rules"] = with_cf(s["rules"], "T")
             elif rng.random() < 0.3 and not any(c["method"] == "ExecuteDAGModel" for c in s["calls"]):
                 # rules without any assignment statement: their locals are bound by forRange only
                 for r in s["rules"]:
@@ -269,6 +276,30 @@ def check_c15(run):
                         r["noasg"] = True
                         r["ops"] = [dict(o, k="FR") if o["k"] == "W" else o for o in r["ops"]]
             sessions.append(s)
+    # histories through ONE method on one engine / pool instance (what an execution leaves behind meets the next call of
+    # the same kind): 2-3 calls, with stop tags and stop-on-error so that calls also end early
+    for i in range(400 if quick else 6000):
+        rec = rng.choice(recsL)
+        sid += 1
+        m, extra = rng.choice([("ExecuteWithStopTagDirect", {}), ("ExecuteWithStopTagDirect", {}), ("Execute", {}),
+                               ("ExecuteSelectedRulesWithControl", {"names": ["r1", "r2", "r3"]}),
+                               ("ExecuteSelectedRulesWithControlAndStopTag", {"names": ["r3", "r2", "r1"]}),
+                               ("ExecuteMixModelWithStopTagDirect", {}), ("ExecuteNSortMConcurrent", {"n": 2, "m": 1})])
+        rules = rules_of(rec)
+        if rng.random() < 0.6:
+            rules = with_cf(rules, "T")
+        sessions.append({"id": sid, "kind": "locals", "target": rng.choice(["engine", "pool"]), "gated": rng.random() < 0.5, "parallel": False,
+                         "rules": rules, "calls": [mkcall(m, extra, rng.random() < 0.5) for _ in range(rng.randint(2, 3))]})
+    # many simultaneous pool requests through the same rules, without gates (real parallelism)
+    for i in range(60 if quick else 1200):
+        rec = rng.choice(recsL)
+        sid += 1
+        rules = with_cf(rules_of(rec), "CW")
+        if rng.random() < 0.5:
+            rules = with_cf(rules, "CW")
+        mn = rng.randint(2, 4)
+        sessions.append({"id": sid, "kind": "locals", "target": "pool", "gated": False, "parallel": True, "poolmin": mn, "poolmax": mn + 2,
+                         "rules": rules, "calls": [mkcall(*rng.choice(ANY)) for _ in range(rng.randint(4, 8))]})
     # programs with injected fields: sequential models only (log order = real order)
     for rec in (recsI if not quick else rng.sample(recsI, min(len(recsI), 1200))):
         if not any(o["k"] in ("WI", "RI") for r in rec["rules"] for o in r["ops"]):
@@ -277,8 +308,8 @@ def check_c15(run):
         sid += 1
         sessions.append({"id": sid, "kind": "locals", "target": rng.choice(["engine", "pool"]), "gated": rng.random() < 0.5,
                          "parallel": False, "rules": rules_of(rec), "calls": [mkcall(m, extra), mkcall("Execute", {})]})
-    if quick and len(sessions) > 2500:
-        sessions = rng.sample(sessions, 2500)
+    if quick and len(sessions) > 3200:
+        sessions = rng.sample(sessions, 3200)
     ns = _run(run, sessions, "locals", "LocalsTrace.tla", "LocalsTrace.cfg", locals_describe)
     if getattr(run, "collect", None) is not None:
         return 0
